@@ -9,6 +9,7 @@ import (
 	"net/url"
 	"os"
 	"path/filepath"
+	"sync"
 	"time"
 
 	"github.com/google/pprof/internal/driver"
@@ -463,6 +464,72 @@ func runC01(c *Ctx) {
 		}
 	}
 	histories()
+	// 1b''. concurrent Write/Copy of ONE profile object (web handlers copy the loaded profile
+	// concurrently): serialization is one critical section, so every goroutine must get exactly the
+	// bytes a lone writer gets (the model's bytes for the profile's content)
+	for i := 0; i < c.Budget(6, 200); i++ {
+		p := GenProfile(r, c01Knobs(r))
+		if p.CheckValid() != nil || len(p.Sample) == 0 {
+			continue
+		}
+		for len(p.Sample) < 120 { // make one encoding long enough for writers to overlap
+			p.Sample = append(p.Sample, p.Sample[:len(p.Sample):len(p.Sample)]...)
+		}
+		ref, pan := c01Serialize(p)
+		if pan {
+			continue
+		}
+		in := DumpProfile(p)
+		pc := p.Copy() // a lone Copy and its bytes: the reference for the concurrent copies
+		inC := DumpProfile(pc)
+		refC, _ := c01Serialize(pc)
+		odd := make(chan Term, 64)
+		oddC := make(chan Term, 64)
+		var wg sync.WaitGroup
+		for g := 0; g < 8; g++ {
+			wg.Add(1)
+			go func(g int) {
+				defer wg.Done()
+				defer func() {
+					if rec := recover(); rec != nil {
+						select {
+						case odd <- L(S("panic")):
+						default:
+						}
+					}
+				}()
+				for k := 0; k < 40; k++ {
+					if (g+k)%3 == 0 {
+						q := p.Copy()
+						if b, _ := c01Serialize(q); !bytes.Equal(b, refC) {
+							select {
+							case oddC <- L(S("ok"), S(string(b))):
+							default:
+							}
+						}
+					} else if b, _ := c01Serialize(p); !bytes.Equal(b, ref) {
+						select {
+						case odd <- L(S("ok"), S(string(b))):
+						default:
+						}
+					}
+				}
+			}(g)
+		}
+		wg.Wait()
+		obs := L(S("ok"), S(string(ref)))
+		select {
+		case obs = <-odd:
+		default:
+		}
+		c.Case("concurrent-ser", L(S("ser"), in), obs, true, "op:ser", "concurrent:8x40")
+		obsC := L(S("ok"), S(string(refC)))
+		select {
+		case obsC = <-oddC:
+		default:
+		}
+		c.Case("concurrent-ser", L(S("ser"), inC), obsC, true, "op:ser", "concurrent:copy")
+	}
 	// 1c. pprof -proto through the driver, re-read: every sample keeps its frames (names, files, lines,
 	// columns, addresses), values and labels
 	for i := 0; i < c.Budget(120, 4000); i++ {
